@@ -10,6 +10,7 @@
      abs_snssai s = Some (sst, sd)   Sst in 0..255, Sd "" (sd = None) or six hex digits
      abs_tai t    = Some (plmn, tac) PlmnId non-nil, Mcc "ddd", Mnc "dd"/"ddd", Tac six hex digits
      opt_all (map abs_x l) = Some vs every element of l is well formed and denotes vs. *)
+From NV Require C19.Globals.
 From NV Require Import Lib.Base C13.GoStd C13.Model C13.Spec C13.Proofs.
 Open Scope N_scope.
 
@@ -294,6 +295,14 @@ Example C13_total_example :
   LadnToModels [0; 0] = Ok [[]; []].
 Proof. vm_compute. repeat split; reflexivity. Qed.
 
+(* the functions this property is about are functions of their arguments: the files it is anchored in declare
+   no package-level variable other than the pinned read-only tables (or a never-touched one of plain type) and
+   none of their functions writes, slices, takes the address of, passes on or calls a method of a
+   package-level variable (logger entries excepted) -- evaluated on the current source (C19/Globals.v) *)
+Theorem C13_anchor_files_keep_no_state :
+  Globals.hidden_state_free Globals.anchors_C13 = true.
+Proof. vm_compute. reflexivity. Qed.
+
 Print Assumptions C13_snssai_layout.
 Print Assumptions C13_snssai_spec_decodes.
 Print Assumptions C13_snssai_models_roundtrip.
@@ -321,3 +330,4 @@ Print Assumptions C13_UpuAckToModels_value.
 Print Assumptions C13_total_GetDNN.
 Print Assumptions C13_dnn_roundtrip.
 Print Assumptions C13_upu_header.
+Print Assumptions C13_anchor_files_keep_no_state.
